@@ -25,6 +25,7 @@ CHECK = {
         # every message of a failed batch becomes exactly one dead letter, in order (the C18 scenario)
         _c18_entry("vC18_batch"),
     ],
+    "opts_thorough": {"rounds": 5},
     "opts": {"rounds": 3, "unwind": 4, "unwind_mode": "assume", "feasibility": False, "substitute": SUB},
     "stop": _c18.CHECK["stop"] + list(SUB.keys()) + [P + "newCoalescer", "(*" + P + "client).NetClient"],
     "timeout_ms": {"quick": 600000, "thorough": 1800000},
